@@ -11,6 +11,26 @@ P = {
   "Generated header values (all varint widths and boundary lengths, random up to 3 MiB, generated scratch buffers) for all four encoders, judged by round-trip AND by an independent reference encoder/decoder in both directions, through the codecs directly and through a real Server and a real Conn; the 256 flag bytes and every boundary length +-1 are enumerated completely. Search cannot show absence for all inputs, but the input space is regular (length-prefixed fields) and every format boundary is covered exhaustively.",
   "Trusted: the reference codec (harness/kit/refcodec.go) as the statement of the documented formats; nil == empty for byte fields.",
   "property-based testing (rapid) with differential reference codec + exhaustive boundary enumeration; native go fuzz in thorough"),
+ "C01": ("exploration",
+  "Generated workloads over real Conn/Transport <-> real Server with self-describing payloads: every successful reply must equal the bijective transform of the caller's own arguments and the handler must have logged the caller's argument digest. The harness owns server completion order (gated handlers opened in a drawn permutation), stream fragmentation (byte link with 1..4096-byte reads) and payload sizes up to 400 KB across 4 header encoders and all IO modes. Exploration: schedules inside the library without an IO boundary are sampled, not enumerated.",
+  "Trusted: harness links (frame link / in-memory byte link wrapped by the library's own framing), execution log. Fault-free runs only; failures are counted, hangs make the run undecided.",
+  "property-based testing (rapid), model = bijective echo with unique payloads, harness-owned completion order and fragmentation"),
+ "C02": ("exploration",
+  "Generated histories over a real Conn whose socket.Messages is a gated frame link to a scripted peer: the harness decides when each request write succeeds or fails, when (duplicate / unsolicited) responses, peer EOF, read errors and local Close happen, so the racing events of the statement are placed deliberately (with direct IO the schedule is fully owned). Every receive on every Done channel is recorded with a deep copy of Error; oracle: exactly one signal per call, Error frozen, outcome justified by the history. Worker death (nil dereference of a recycled Call) is caught through the case journal and shrunk by the driver.",
+  "Trusted: frame link semantics (synchronous write errors, EOF after queued data); absence of a second signal is asserted after a 3-20 ms settle. NumCalls after the end of a connection is recorded, not asserted.",
+  "model-based property testing (rapid operation lists) over a harness-owned gated link; driver-side delta debugging for crashes"),
+ "C06": ("exploration",
+  "Generated mixes of failing (handler error with drawn UTF-8 text up to 40 KB, unknown method, undecodable args, unencodable reply, unencodable request) and succeeding calls in flight together on a real Conn <-> real Server with a wire tap that decodes every response with the reference codec; then 10-60 later calls. Oracle: exactly the intended calls fail, text == text on the wire (== drawn text for handler errors) at return and again after later traffic, reply objects untouched, neighbours and later calls right, NumCalls()==0 after a client-side encode failure.",
+  "Trusted: wire tap/reference decoder; a failing body codec stands for undecodable/unencodable values. Frame link only.",
+  "property-based testing (rapid) with wire-tap differential oracle and deep-copied observations"),
+ "C11": ("exploration",
+  "Generated traffic (20-300 items, 1-4 workers) with the aliasing zero-copy body codec; every slice handed to user code (handler args, stream messages on both sides, replies, caller-supplied context buffers) is retained with its SHA-1 and re-hashed every 20 items and at the end; guard bytes beyond the reported length are checked. Sizes straddle every pool class with hot sizes so recycled buffers are really reused (a seeded aliasing mutant is caught within the quick budget).",
+  "Trusted: natural reuse of the library's global pools (no poisoning hook). NoCopy off.",
+  "property-based testing (rapid), retained-digest invariant over the history"),
+ "C19": ("exploration",
+  "Generated sets of calls on a real Conn to a scripted peer: the harness orders response-before-cancel, cancel/deadline, late response for the abandoned call, and final responses for live siblings; context buffers at capacity len-1/len/len+1 etc. Oracle: ctx error returned within 2 s when never answered, reply right when answered first, either when both; siblings complete exactly once with their own reply and are untouched by late responses; buffer used iff large enough, guard bytes intact.",
+  "Trusted: frame link, scripted peer; 'promptly' = 2 s bound which must reproduce in isolation (rule T).",
+  "property-based testing (rapid) with harness-owned response/cancel ordering"),
 }
 
 NOT_BUILT_REASON = "check not built yet in this session; see DESIGN.md section 6 for the planned generated check"
